@@ -154,8 +154,13 @@ def check(ctx):
     lx = S.module("c_lexer")
     mt = lx.method("CLexer", "_match_token")
     found = False
+    # the candidate variable: initialised to None and assigned the (length, type, ...) tuples of the two matchers
+    cands = {t.id for a_ in ast.walk(mt) if isinstance(a_, ast.Assign) and isinstance(a_.value, ast.Constant) and a_.value.value is None for t in a_.targets if isinstance(t, ast.Name)} \
+        & {t.id for a_ in ast.walk(mt) if isinstance(a_, ast.Assign) and isinstance(a_.value, ast.Tuple) for t in a_.targets if isinstance(t, ast.Name)}
+    if not cands:
+        raise AnalysisError("_match_token: the best-candidate variable (None, then a tuple per matcher) was not found")
     for n in ast.walk(mt):
-        if isinstance(n, ast.If) and isinstance(n.test, ast.Compare) and isinstance(n.test.left, ast.Name) and n.test.left.id == "best" and isinstance(n.test.ops[0], ast.Is):
+        if isinstance(n, ast.If) and isinstance(n.test, ast.Compare) and isinstance(n.test.left, ast.Name) and n.test.left.id in cands and isinstance(n.test.ops[0], ast.Is):
             calls = [c for st in n.body for c in ast.walk(st) if isinstance(c, ast.Call) and isinstance(c.func, ast.Attribute) and c.func.attr == "_error"]
             found = bool(calls)
     ctx.oblige("R-C18.5", "_match_token reports text that matches nothing", found)
